@@ -222,6 +222,8 @@ class C05(Check):
         self._exc = {}
         self._ref_n = 0
         self._ref_bad = []
+        self._stream = {}
+        self._seen_dom = set()
         self.stats = {"input_distribution": {}}
 
     # ---- cases
@@ -239,6 +241,9 @@ class C05(Check):
                  for _ in range(20000 if quick else 400000)]
         mal = [gen_malformed(self.rng) for _ in range(n_mal)]
         out += rnd + small + mal
+        for name, lst in (("exhaustive", ex), ("grammar", rnd), ("small_alphabet", small), ("malformed", mal)):
+            for t in lst:
+                self._stream.setdefault(t, name)
         d = self.stats["input_distribution"]
         d["exhaustive_texts"] = len(ex)
         d["random_grammar_texts"] = len(rnd)
@@ -309,7 +314,15 @@ class C05(Check):
         return [logical, nodes, tree[2]]
 
     def in_domain(self, case, sa):
-        return self._flags.get(case, (False, False, False))[0]
+        wf, c20, c22 = self._flags.get(case, (False, False, False))
+        if case not in self._seen_dom:
+            self._seen_dom.add(case)
+            d = self.stats.setdefault("well_formed_by_stream", {})
+            e = d.setdefault(self._stream.get(case, "corpus"), {"cases": 0, "well_formed": 0, "in_known_class": 0})
+            e["cases"] += 1
+            e["well_formed"] += 1 if wf else 0
+            e["in_known_class"] += 1 if (wf and (c20 or c22)) else 0
+        return wf
 
     def classify(self, case, ia, sa):
         wf, c20, c22 = self._flags.get(case, (False, False, False))
